@@ -42,7 +42,12 @@ S1small == {[tag |-> 4325387, ty |-> 1, v |-> <<>>], [tag |-> 4325387, ty |-> 1,
             [tag |-> 4325387, ty |-> 1, v |-> <<[tag |-> 4325381, ty |-> 6, v |-> TRUE], [tag |-> 4325379, ty |-> 4, v |-> [neg |-> TRUE, mag |-> <<128, 1>>]]>>]}
 S2 == {[tag |-> 4325388, ty |-> 1, v |-> s] : s \in UNION {[1..n -> (S1small \cup {[tag |-> 4325383, ty |-> 8, v |-> B(9, 2)]})] : n \in 1..3}}
 S3 == {[tag |-> 4325389, ty |-> 1, v |-> <<x, y>>] : x \in S2, y \in S1small}
-Trees == Leaves(Tags) \cup S1 \cup S2 \cup S3
+\* sizes beyond any initial buffer: a value of 8200 / 70000 bytes, a structure of 600 children (about 10 kB), nested
+Big == {[tag |-> 4325383, ty |-> 8, v |-> B(8200, 5)], [tag |-> 4325382, ty |-> 7, v |-> [i \in 1..20000 |-> 65 + (i % 26)]],
+        [tag |-> 4325387, ty |-> 1, v |-> [i \in 1..40 |-> [tag |-> 4325382, ty |-> 7, v |-> B(250 + (i % 9), i)]]],
+        [tag |-> 4325388, ty |-> 1, v |-> <<[tag |-> 4325387, ty |-> 1, v |-> [i \in 1..30 |-> [tag |-> 4325382, ty |-> 7, v |-> B(i % 19, i)]]],
+                                            [tag |-> 4325383, ty |-> 8, v |-> B(9000, 7)]>>]}
+Trees == Leaves(Tags) \cup S1 \cup S2 \cup S3 \cup Big
 
 \* ---- corrupted encodings (C02): every single-header corruption and every truncation of a few base trees
 Bases == {[tag |-> 4325387, ty |-> 1, v |-> <<[tag |-> 4325382, ty |-> 7, v |-> <<97, 98, 99>>], [tag |-> 4325377, ty |-> 2, v |-> <<0,0,0,5>>]>>],
